@@ -143,7 +143,8 @@ class DynamicStructuredGrammaticalEvolutionRepresentation(
         return random_tree(DeciderSource(decider), self.grammar, decider)
 
     def mutate(self, random: RandomSource, genotype: Genotype, **kwargs) -> Genotype:
-        dna = deepcopy(genotype.dna)
+        # Copy the gene lists but keep the keys themselves: they are types and must stay the same objects.
+        dna = {k: deepcopy(v) for k, v in genotype.dna.items()}
         alternatives = list(genotype.dna.keys())
         if alternatives:
             rkey = random.choice(alternatives)
